@@ -165,16 +165,64 @@ def check(ctx) -> Result:
     rf_cache.f3_result_fields(ctx, res, STc, pr)
     n = rc_owner.c1_fields(ctx, res, [STc])
     res.floor("held base circuit", n, 1)
-    # Pauli expansion order
+    # every circuit handed to the experiment callback is a new object: never the held base circuit itself
+    cs_ = ctx.eng.summary(cc)
+    leaks = [l for l in cs_.returns.locs if l[0] != "F" and l[0] != "D"]
+    res.add(bool(cs_.returns.locs) and not leaks, "C3-experiment-circuit-fresh", "StateTomography._create_circuit", cc.site(), cc.qualname, "returns a circuit created in this call on every path",
+            "on some path the base circuit object itself is returned: an experiment callback that adjusts the circuits it is given (detector remapping, added loss) then edits the base circuit, and the next process() reconstructs a different state", construct=", ".join(sorted(map(str, leaks)))[:160])
+    # Pauli expansion order and weights (decided on the helper-expanded function, factor order by kronorder.py)
+    from .. import kronorder as _ko
+    from ..inline import with_helpers as _wh2
     dm = ctx.func(UT, "_calculate_density_matrix")
-    kr = [c for c in walk_no_nested(dm.node) if isinstance(c, ast.Call) and src(c.func).endswith("kron")]
-    okk = len(kr) == 1 and src(kr[0].args[0]) == "mat" and src(kr[0].args[1]) == "PAULI_MAPPING[g]"
-    td = src(dm.node).replace(" ", "")
-    if len(kr) == 1 and src(kr[0].args[1]) == "mat" and "PAULI_MAPPING" in src(kr[0].args[0]):
-        res.bad("K-pauli-expansion-order", "_calculate_density_matrix", dm.site(kr[0]), dm.qualname, "Kronecker factors of the Pauli expansion are accumulated in reverse order (last qubit leftmost) while the expectation value reads qubit j from modes (2j, 2j+1)", construct=src(kr[0]))
-    res.frozen(okk and "mat=PAULI_MAPPING[ops[0]]" in td and "forginops[1:]" in td and "ops=measurement.split(',')" in td, "K-pauli-expansion-order", "_calculate_density_matrix", dm.site(), dm.qualname,
-            "tensor factors follow the order of the measurement string (qubit 0 leftmost)", "Kronecker factors of the Pauli expansion are not in measurement-string order", construct=src(kr[0]) if kr else "")
-    res.frozen("expectation/=2**n_qubits" in td and "rho+=expectation*mat" in td, "K-pauli-expansion-order", "_calculate_density_matrix:weights", dm.site(), dm.qualname, "rho = sum <P> P / 2^n", "Pauli expansion weights changed", construct="weights")
+    dmh = _wh2(ctx, dm, exclude=("_calculate_expectation_value",), inline_locals=False)
+    dloops = [l for l in walk_no_nested(dmh.node) if isinstance(l, ast.For) and isinstance(l.target, ast.Tuple) and len(l.target.elts) == 2 and src(l.iter).endswith(".items()")]
+    decided = False
+    if dloops:
+        lp_ = dloops[0]
+        mname = src(lp_.target.elts[0])
+        augs = [(i_, a_) for i_, a_ in enumerate(lp_.body) if isinstance(a_, ast.AugAssign) and isinstance(a_.op, ast.Add) and isinstance(a_.value, ast.BinOp) and isinstance(a_.value.op, ast.Mult)]
+        if augs:
+            i_, aug = augs[-1]
+            before = lp_.body[:i_]
+            # which operand is the operator product?
+            verdicts = {}
+            for n_ in (2, 3):
+                got = None
+                for operand in (aug.value.left, aug.value.right):
+                    ev_ = _ko.Eval(n_, mname)
+                    env_ = {}
+                    ev_.run(before, env_)
+                    try:
+                        v_ = ev_.ev(operand, env_)
+                    except _ko.Unknown:
+                        continue
+                    if isinstance(v_, tuple):
+                        got = v_
+                verdicts[n_] = got
+            if all(v is not None for v in verdicts.values()):
+                decided = True
+                wrong = {n_: v for n_, v in verdicts.items() if v != tuple(range(n_))}
+                res.add(not wrong, "K-pauli-expansion-order", "_calculate_density_matrix", dm.site(aug), dm.qualname, "tensor factors follow the order of the measurement string (qubit 0 leftmost) for 2 and 3 operators",
+                        "Kronecker factors of the Pauli expansion are not in measurement-string order: " + "; ".join(f"for {n_} operators the product is built as positions {v}" for n_, v in wrong.items()) + " while the expectation value reads qubit j from modes (2j, 2j+1)", construct=src(aug)[:120])
+            # weights: the coefficient is the expectation value of *this* setting (normalised by this setting's counts)
+            names = set()
+            for operand in (aug.value.left, aug.value.right):
+                names |= {x.id for x in ast.walk(operand) if isinstance(x, ast.Name)}
+            coef_src = " ".join(src(operand) for operand in (aug.value.left, aug.value.right))
+            for _r in range(3):
+                for st_ in before:
+                    for a_ in ast.walk(st_):
+                        if isinstance(a_, (ast.Assign, ast.AugAssign)):
+                            t_ = a_.targets[0] if isinstance(a_, ast.Assign) else a_.target
+                            if isinstance(t_, ast.Name) and t_.id in names:
+                                coef_src += " " + src(a_.value)
+                                names |= {x.id for x in ast.walk(a_.value) if isinstance(x, ast.Name)}
+            per_setting = "_calculate_expectation_value(" in coef_src
+            res.add(per_setting, "K-pauli-expansion-weights", "_calculate_density_matrix", dm.site(aug), dm.qualname, "each Pauli term is weighted by the expectation value of its own setting (normalised by that setting's counts)",
+                    "the weight of a Pauli term is not the expectation value computed for its own measurement setting: settings with different total counts (different shot numbers, post-selection) are weighted by their counts", construct=src(aug)[:120])
+            res.frozen("2**n_qubits" in coef_src.replace(" ", "") or "2**len(" in coef_src.replace(" ", ""), "K-pauli-expansion-weights", "_calculate_density_matrix:dimension", dm.site(aug), dm.qualname, "rho = sum <P> P / 2^n", "division by 2^n not recognised", construct="weights")
+    if not decided:
+        res.frozen(False, "K-pauli-expansion-order", "_calculate_density_matrix", dm.site(), dm.qualname, "", "construction of the Pauli operator product not recognised", construct="")
     # ---- conjugation / transposition parity (a Hermitian matrix and its transpose differ by complex conjugation)
     from .. import conjalg as ca
     from ..inline import inlined, with_helpers
